@@ -81,10 +81,16 @@ def genBoundary : List String := [
   "numericValidator.genBoundary: `return fmt.Errorf(\"field %%s: must be %s %%v\", \"%s\", %v)`",
   "numericValidator.genBoundary: \"}\"",
   "numericValidator.genBoundary: if boundary == nil",
+  "numericValidator.genBoundary: limit := v.boundOf(*boundary, sign == \"<\", exclusive)",
   "numericValidator.genBoundary: comp := sign",
   "numericValidator.genBoundary: if exclusive",
   "numericValidator.genBoundary: comp += \"=\"",
   "numericValidator.genBoundary: sign += \"=\"",
+  "numericValidator.boundOf: if !v.roundToInt",
+  "numericValidator.boundOf: return val",
+  "numericValidator.boundOf: if upper == exclusive",
+  "numericValidator.boundOf: return int64(math.Ceil(val))",
+  "numericValidator.boundOf: return int64(math.Floor(val))",
   "numericValidator.valueOf: return int64(val)",
   "numericValidator.valueOf: return val"
 ]
